@@ -39,6 +39,8 @@ func vPruneOptsC09(t *rapid.T) (PruneOptions, []string) {
 // vStateOKC09 asserts the property's post-condition on one repository state:
 // check --read-data finds no error and every kept snapshot restores to its model.
 func vStateOKC09(e *vEnv, s *vbe.Store, keep map[string]vTree, src string) error {
+	// the crashed process is dead: its lock is stale and `restic unlock` removes it
+	s.DropLocks()
 	se := e.OnStore(s)
 	defer se.Release()
 	if out, err := se.Check(true); err != nil {
